@@ -133,6 +133,8 @@ def gen_grid(rng):
             "td_int": rng.random() < 0.3,
             # "extra dimensions and their chunking": data (integer or float) chunked over the non-axis dims
             "da_int": rng.random() < 0.3, "da_chunked": rng.random() < 0.3,
+            # target levels / bin edges held as integers when they are whole numbers
+            "lev_int": rng.random() < 0.3,
             "has_outer": method == "conservative" or rng.random() < 0.6}
 
 
@@ -164,6 +166,8 @@ def build_grid_call(case):
         td = xr.DataArray(np.array(case["td_vals"], dtype=td_dtype).reshape([l for _, l in case["tdims"]]),
                           dims=[d for d, _ in case["tdims"]], name=case["td_name"])
     lev = np.array(case["levels"], dtype=float)
+    if case.get("lev_int") and all(float(v).is_integer() for v in case["levels"]):
+        lev = lev.astype(int)
     if case.get("da_chunked"):
         da = da.chunk({d: 1 for d in da.dims if d != nm("zc")})
         if td is not None and case.get("da_int") is not None:
